@@ -8,7 +8,9 @@ pub const NAMES: [&str; 16] = [
     "a", "b", "c", "x", "y", "foo", "bar_1", "a.b", "_t", "é1", "ñ", "trueish", "notx", "inside", "in1", "ANDY",
 ];
 pub const FUNCS: [&str; 8] = ["f", "g", "min", "sum", "foo", "h.k", "_f", "max"];
-pub const NUMS: [&str; 10] = ["1", "2", "3", "0", "3.5", "0.10", "12345678901234567890", "007", "10", "0.0000000000000000000000000001"];
+pub const NUMS: [&str; 12] = [
+    "1", "2", "3", "0", "3.5", "0.10", "12345678901234567890", "007", "10", "0.0000000000000000000000000001", "9223372036854775808", "9999999999999999999",
+];
 pub const STRS: [&str; 12] = [
     "'a'", "\"b c\"", "\"it's\"", "'say \"x\"'", "\"\"", "'é'", "\"(\"", "'a+b'", "\" ? : \"", "'x\ty\nz'", "\"]\"", "'not in'",
 ];
